@@ -70,23 +70,48 @@ Print Assumptions C08_interrupt_structural.
    Then the whole directory is exactly as before (destination = old node, no temporary file or
    directory, nothing else changed) and every ExternalTensor keeps its validity flag. *)
 Theorem C08_exception_clean :
-  forall fs0 tens small sc c e, single_wf fs0 sc ->
+  forall fs0 tens small sc c e, single_wf fs0 sc -> nul_free tens sc ->
   crash_at c = None ->
   snd (run c fs0 tens small sc) = SRaise e ->
   ~ In (OFail true) (s_trace (fst (run c fs0 tens small sc))) ->
   (forall p, lookup (s_fs (fst (run c fs0 tens small sc))) p = lookup fs0 p)
   /\ map t_valid (s_tens (fst (run c fs0 tens small sc))) = map t_valid tens.
 Proof.
-  intros fs0 tens small sc c e Hwf Hc Hr Hn.
-  destruct (exception_clean fs0 tens small sc Hwf c e Hc Hr Hn) as (H1 & H2 & _). split; assumption.
+  intros fs0 tens small sc c e Hwf Hnn Hc Hr Hn.
+  destruct (exception_clean fs0 tens small sc Hwf c e Hnn Hc Hr Hn) as (H1 & H2 & _). split; assumption.
 Qed.
 Print Assumptions C08_exception_clean.
+
+(* KNOWN FINDING (reproduced on the implementation on every run, known_findings.d/C08.json
+   "samefile-valueerror-leaks-tempdir"): without [nul_free] the statement is false.  The list of overwritten
+   tensors is computed after mkdtemp but OUTSIDE the try block; os.path.samefile raises ValueError (embedded
+   null byte) which _paths_refer_to_same_file does not catch (it catches OSError), so the save raises and the
+   fresh temporary directory stays.  Witness: one external tensor whose location contains a NUL. *)
+Definition nul_fs : fsT := [([1%N], File [1%N; 2%N; 3%N] 420%N)].
+Definition nul_tens : list tstate :=
+  [{| t_path := [0%N]; t_off := 0; t_len := 2; t_valid := true; t_map := None |}].
+Definition nul_sc : scn :=
+  {| sc_req := [1%N]; sc_tmpd := [7%N]; sc_tensors := [(0, TExt 0)]; sc_chunk := 4; sc_cb := None; sc_cbbase := 0 |}.
+Theorem C08_samefile_valueerror_refuted :
+  exists fs0 tens small sc c e,
+    single_wf fs0 sc /\ crash_at c = None /\ snd (run c fs0 tens small sc) = SRaise e
+    /\ ~ In (OFail true) (s_trace (fst (run c fs0 tens small sc)))
+    /\ lookup (s_fs (fst (run c fs0 tens small sc))) (sc_tmpd sc) <> lookup fs0 (sc_tmpd sc).
+Proof.
+  exists nul_fs, nul_tens, [], nul_sc, no_ctl, ValueError. split; [|vm_compute; repeat split; try discriminate].
+  - unfold single_wf. split; [|split; [reflexivity|discriminate]].
+    intros [|x p] H; [discriminate|].
+    change (is_prefix (sc_tmpd nul_sc) (x :: p)) with (N.eqb 7 x && is_prefix [] p) in H.
+    apply andb_prop in H. destruct H as [H _]. apply N.eqb_eq in H. subst x. reflexivity.
+  - intros [H|[H|[H|[]]]]; discriminate.
+Qed.
+Print Assumptions C08_samefile_valueerror_refuted.
 
 (* ... and every external tensor (in particular those backed by the destination) is as valid as before
    and tobytes() returns what it returned before.  Coherence hypothesis: a tensor that was memory-mapped
    before the save had mapped the file's then-current content. *)
 Theorem C08_exception_tensors_read_old :
-  forall fs0 tens small sc c e, single_wf fs0 sc ->
+  forall fs0 tens small sc c e, single_wf fs0 sc -> nul_free tens sc ->
   crash_at c = None ->
   snd (run c fs0 tens small sc) = SRaise e ->
   ~ In (OFail true) (s_trace (fst (run c fs0 tens small sc))) ->
@@ -165,6 +190,8 @@ Example ex_keyboard_interrupt_clean :
   snd (run no_ctl ex_fs ex_tens [] ex_sc_kbd) = SRaise OtherError /\ is_base_exception OtherError = true
   /\ s_fs (fst (run no_ctl ex_fs ex_tens [] ex_sc_kbd)) = ex_fs.
 Proof. vm_compute. repeat split; reflexivity. Qed.
+Example ex_nul_free : nul_free ex_tens ex_sc.
+Proof. reflexivity. Qed.
 Example ex_image : image ex_fs ex_tens (sc_tensors ex_sc) = [2%N; 3%N; 5%N; 6%N; 7%N].
 Proof. vm_compute. reflexivity. Qed.
 Example ex_shard_wf : Forall (shard_wf ex_fs) [ {| sc_req := [3%N]; sc_tmpd := [7%N]; sc_tensors := [(0, TMem [5%N])];
